@@ -108,10 +108,11 @@ def gen_case(seed, index):
         cont = kind == "linewise" and rng.random() < 0.3
         if cont:
             # the backslash is the end of a text piece
+            bs = " \\" if rng.random() < 0.75 else rng.choice([" \\\\", "\\\\\\"])     # (one backslash, or two / three: the last one continues the line)
             if pieces and pieces[-1][0] == "text":
-                pieces[-1] = ("text", pieces[-1][1] + " \\")
+                pieces[-1] = ("text", pieces[-1][1] + bs)
             else:
-                pieces.append(("text", " \\"))
+                pieces.append(("text", bs))
         elif pieces and pieces[-1][0] == "text" and pieces[-1][1].endswith("\\"):
             pieces.append(("text", "."))
         # a line must not be whitespace-only (it would be a blank line) nor start with whitespace (extra indentation)
